@@ -156,6 +156,25 @@ func checkC11(c *Ctx, r *Report) {
 			if !reached[rootOf(f)] && !reached[f] {
 				return
 			}
+			// putting the octets back after they were read (to log or parse them twice) is harmless
+			restored := false
+			eachInstr(f, func(_ *ssa.BasicBlock, _ int, i2 ssa.Instruction) {
+				call, ok := i2.(*ssa.Call)
+				if !ok {
+					return
+				}
+				obj := calleeObj(&call.Call)
+				if obj == nil || obj.Pkg() == nil {
+					return
+				}
+				isRead := (obj.Pkg().Path() == ginPath && obj.Name() == "GetRawData") || ((obj.Pkg().Path() == "io" || obj.Pkg().Path() == "io/ioutil") && obj.Name() == "ReadAll")
+				if isRead && instrDominates(call, st) {
+					restored = true
+				}
+			})
+			if restored {
+				return
+			}
 			nBody++
 			r.viol("C11.R7", fnKey(rootOf(f))+"|replaces the request body", posOf(c, ins), "the request body is replaced by "+describe(st.Val)+" before it is read: whatever makes that reader fail (a length limit, a deadline) is answered with the 500 of the body-read error branch although the request is valid")
 		})
